@@ -6,10 +6,11 @@ get steps whose lengths are aimed at the case-split boundaries of the setter (cu
 inline -> separate -> inline(0) -> separate and grows/shrinks in place; bytes are biased
 towards NUL, >= 0x80 and the characters json_escape_str treats specially; allocation faults
 on the setter's (and the creation's) allocation; refused lengths (negative, >= INT_MAX-1);
-setters whose source is the node's own current buffer, json_object_get_string(o) + off, with a
-new length <= what is there (in-place truncation to every small length incl. 0 and the
-sizeof(void*) neighbourhood, strlen of the own buffer, disjoint substrings), in inline and in
-separate storage.
+setters whose source is the node's own current buffer, json_object_get_string(o) + off: in-place
+truncation to every small length incl. 0 and the sizeof(void*) neighbourhood, strlen of the own
+buffer, suffixes and substrings overlapping the destination or not, the contents together with
+their terminator (which makes the string grow from its own bytes), in inline and in separate
+storage, with faults on the grow allocation.
 
 Direct oracle: a Python byte-string model of the property text, independent of the Coq model:
 contents = bytes of the last setter that returned 1 (or of the creation)."""
@@ -26,9 +27,9 @@ TRUSTED = ["Coq 8.16.1 kernel (coqc), no axioms (Print Assumptions: closed under
            "extraction (ExtrOcamlBasic only) + ocaml/mdrv glue (ocaml/drv_str.ml)",
            "harness/drv_str.c, xalloc.c, gcc -fsanitize=address,undefined",
            "LP64 layout constants of the model (header 48 bytes, pointer 8 bytes; the driver refuses another ABI)"]
-ASSUMPTIONS = ["a setter's source inside the node's own buffer stays inside the current contents and is either exactly their "
-               "start or disjoint from the destination range (a partially overlapping source is an overlapping memcpy: "
-               "not generated, see LEVEL_NOTE); a source equal to the destination relies on memcpy(p, p, n) being harmless",
+ASSUMPTIONS = ["a setter's source is either memory outside the node or a range inside the node's current contents and their "
+               "terminator (json_object_get_string(o) + off), overlapping the destination or not; stale bytes beyond the "
+               "terminator of a larger old buffer are not a valid source",
                "strings longer than INT_MAX bytes (only creatable through json_object_new_string) are outside the sampled domain; "
                "the theorems carry the guard length <= INT_MAX for the int-typed length accessor",
                "memory model of C is outside the Gallina model: heap blocks, liveness and bounds are modelled explicitly, "
@@ -117,26 +118,37 @@ def gen(rng, tier):
             if r < 0.06:
                 steps.append("g")
             elif r < 0.22 and shadow is not None:
-                # source = the node's own buffer (+ offset), new length <= what is there:
-                # in-place truncation, suffix/substring extraction without overlap
+                # source = the node's own buffer + offset: in-place truncation, suffix or
+                # substring (overlapping the destination or not), the contents with their NUL
                 n = len(shadow)
+                z = shadow + b"\0"
                 if rng.random() < 0.3:                      # strlen-based
-                    offs = [k for k in (0, 0, rng.randint(0, n), n, n // 2 + 1)
-                            if k <= n and (k == 0 or own_strlen(shadow, k) <= k)]
-                    off = rng.choice(offs)
+                    off = rng.choice([0, 0, 1, 2, rng.randint(0, n), n, n // 2 + 1])
+                    off = min(off, n)
                     steps.append("s%d" % off)
                     shadow = shadow[off:off + own_strlen(shadow, off)]
                 else:
-                    if rng.random() < 0.65 or n == 0:
+                    r2 = rng.random()
+                    if r2 < 0.45 or n == 0:                 # truncation in place / contents + NUL
                         off = 0
-                        ln = rng.choice([0, 1, 2, 5, 7, 8, 9, n - 1, n, n // 2, rng.randint(0, n)])
-                        ln = max(0, min(ln, n))
+                        ln = rng.choice([0, 1, 2, 5, 7, 8, 9, n - 1, n, n + 1, n // 2, rng.randint(0, n)])
+                    elif r2 < 0.8:                          # overlapping suffix / substring
+                        off = rng.choice([1, 1, 2, 3, rng.randint(1, n)])
+                        off = min(off, n)
+                        ln = rng.choice([n - off, n - off, n + 1 - off, max(0, n - off - 1), rng.randint(0, n - off)])
+                    else:                                   # anywhere
+                        off = rng.randint(0, n)
+                        ln = rng.randint(0, n + 1 - off)
+                    ln = max(0, min(ln, n + 1 - off))
+                    f = fault(rng, 0.05, 0.0) if off + ln > n else ""
+                    steps.append("o%d,%d%s" % (off, ln, f))
+                    if f:
+                        kind = "fault"
+                        shadow = None
                     else:
-                        off = rng.randint(1, n)
-                        room = min(off, n - off)          # inside the contents, disjoint from the destination
-                        ln = min(room, rng.choice([0, 1, room, rng.randint(0, room)]))
-                    steps.append("o%d,%d" % (off, ln))
-                    shadow = shadow[off:off + ln]
+                        shadow = z[off:off + ln]
+                if shadow is None:
+                    continue
                 cur = len(shadow)
                 if kind == "mixed":
                     kind = "own-source"
@@ -216,10 +228,10 @@ def requested(tok, cur=b""):
         else:
             off = int(body)
             ln = own_strlen(cur, off)
-        # the generator keeps the source inside the contents and the ranges exact or disjoint
-        if not (0 <= off and off + ln <= len(cur) and (off == 0 or ln <= off or tok[0] in "OS")):
+        # the generator keeps the source inside the contents and their terminator
+        if not (0 <= off <= len(cur) and 0 <= ln and off + ln <= len(cur) + 1):
             raise ValueError("own-buffer source outside the generated domain: " + tok)
-        return cur[off:off + ln], flt
+        return (cur + b"\0")[off:off + ln], flt
     b, ln, flt = parse_arg(tok[1:])
     if tok[0] in "lL":
         if ln < 0 or ln >= INT_MAX - 1 or ln > len(b):
@@ -262,6 +274,7 @@ def check_view(st, want, ns, where):
 
 def oracle(line, meta, impl):
     if "CRASH asan:memcpy-param-overlap" in impl:
+        # the class of the repaired defect (known_findings.json: fixed) — a regression shows up under the same id
         return ("alias-overlap", "memcpy with partially overlapping ranges: the setter's source lies inside the node's own "
                 "buffer, closer to its start than the length copied: " + impl[-60:])
     if "CRASH" in impl:
@@ -383,8 +396,9 @@ LEVEL_TEXT = ("Machine-checked invariant and refinement: for every allocator beh
               "set_string_len calls on a node created by new_string(_len), the model of the string node (len sign convention, "
               "inline area with ghost capacity, union with the buffer pointer, heap of blocks with tombstones, malloc/free log) "
               "never reaches undefined behaviour, holds exactly the bytes of the last successful set with their count and a NUL "
-              "inside the buffer, accepts the node's own buffer as source (in-place truncation, substring: the copy precedes any "
-              "release), leaves a failed set (allocation failure or refused length) without any change of contents, "
+              "inside the buffer, accepts any range of the node's own buffer and terminator as source (in-place truncation, "
+              "overlapping suffix, growth from the own bytes: every copy reads the bytes as they were before the call and "
+              "precedes any release), leaves a failed set (allocation failure or refused length) without any change of contents, "
               "length, storage or log, keeps the set of live blocks equal to {object} + {current separate buffer iff len < 0}, "
               "performs every write inside a live block of sufficient size, frees everything at delete; equality, copy and "
               "serialisation of the model read exactly the length-counted bytes and the escaping is injective (Coq, induction "
@@ -394,6 +408,5 @@ LEVEL_TEXT = ("Machine-checked invariant and refinement: for every allocator beh
 LEVEL_NOTE = ("Trusted: Coq kernel; extraction + OCaml glue; harness; LP64 layout constants.  The theorems are about the Gallina "
               "model; the C code is tied to it only by the checked correspondence (sampled histories, not all).  Guards: stored "
               "length <= INT_MAX for the int-typed accessor (strings of >= 2^31 bytes made by json_object_new_string are outside); "
-              "a source inside the node's own buffer must be the start of the contents or disjoint from the destination; "
-              "json_object_set_string(o, json_object_get_string(o) + k) with more than k bytes left is an overlapping memcpy in "
-              "the unchanged code (ASan: memcpy-param-overlap) and is kept out of the generator (reported as class alias-overlap).")
+              "a source inside the node's own buffer must lie inside the contents and their terminator (overlap with the "
+              "destination is allowed since the fix 'json_object_set_string(_len): the new contents may overlap the current ones').")
